@@ -405,6 +405,32 @@ def expectedStorePairs : List Text :=
   [t!"promptManager.registerPrompt", t!"resourceManager.registerResource", t!"resourceManager.registerResources",
    t!"toolManager.registerTool"]
 
+/-! ### entries are immutable once published (`extract/lockset.go`) -/
+
+/-- One assignment to a field of a registry entry (`*` = the whole entry through a pointer, `&f` = the address of a field
+    handed out). -/
+structure EntryWrite where
+  type : Text
+  field : Text
+  fn : Text
+  deriving Repr, DecidableEq
+
+/-- Entries are built by composite literals and never written afterwards; all four entry types were found. -/
+def entriesImmutable (tab : List EntryWrite) (typesSeen : Nat) : Bool := tab.isEmpty && typesSeen == 4
+
+/-- The second half of a request path (tools/call, prompts/get, resources/read): the entry pointer was copied out under
+    the read lock (`looked`: the version bound at that instant), the lock released, then — after whatever other
+    goroutines did to the registry, `ops` — handler and descriptor are USED through the copy.  With immutable entries the
+    copy still says what was looked up.  If an unregister may clear the entry in place (family index `immutable = false`)
+    and one for this key ran in between, the use calls a nil handler / dereferences a nil descriptor: `none` = the
+    request dies. -/
+def useCopied (immutable : Bool) (k : Kind) (n : Key) (looked : Option Nat) (ops : List Op) : Option Out :=
+  match looked with
+  | none => some .notFound
+  | some v =>
+    if !immutable && ops.any (fun o => match o with | .unreg k' ns => k' == k && ns.contains n | _ => false)
+    then none else some (.found v)
+
 end Mcp.Registry
 
 /-! ## Part 2 — reader/writer-lock traces -/
